@@ -211,6 +211,7 @@ def run_case(case: Dict[str, Any], ctx) -> None:
         cut = sorted(rng.sample(range(1, len(params)), k - 1)) if k > 1 else []
         bounds = [0] + cut + [len(params)]
         arg = []
+        pforms: List[str] = []
         for gi in range(k):
             idx = list(range(bounds[gi], bounds[gi + 1]))
             g: Dict[str, Any] = {"params": [params[i] for i in idx]}
@@ -223,11 +224,15 @@ def run_case(case: Dict[str, Any], ctx) -> None:
             # the forms torch.optim accepts for a group's "params": a list, any other iterable (tuple), or ONE tensor
             pf = frng.random()
             if pf < 0.15:
-                g["params"] = tuple(g["params"])
-                ctx.count("form:group-params-as-tuple")
+                pforms.append("tuple")
             elif pf < 0.30 and len(idx) == 1:
-                g["params"] = g["params"][0]
-                ctx.count("form:group-params-as-a-single-tensor")
+                pforms.append("single-tensor")
+            elif pf < 0.45:
+                # dict(params=model.base.parameters(), lr=...) - the torch.optim documentation's own idiom: a one-shot iterator
+                pforms.append("one-shot-iterator")
+            else:
+                pforms.append("list")
+            ctx.count("form:group-params-as-" + pforms[-1])
             arg.append(g)
     family = case["family"]
     allow = special == "untagged-allowed"
@@ -278,7 +283,13 @@ def run_case(case: Dict[str, Any], ctx) -> None:
             return (p for p in params)
         if container == "list":
             return list(params)
-        return [dict(g) for g in arg]
+        out_groups = []
+        for g, pform in zip(arg, pforms):
+            g2 = dict(g)
+            ps = list(g["params"])
+            g2["params"] = tuple(ps) if pform == "tuple" else ps[0] if pform == "single-tensor" else iter(ps) if pform == "one-shot-iterator" else ps
+            out_groups.append(g2)
+        return out_groups
 
     try:
         out = O.scaled_parameters(fresh_arg(), fn, lr=global_lr, allow_non_unit_scaling_params=allow)
